@@ -431,6 +431,8 @@ where
     R: Add<U1>,
     Sum<R, U1>: Mul<U2>,
     ExpandedKeyTableSize<R>: ArraySize,
+    // Key length
+    B: Unsigned,
 {
     fn write_alg_name(f: &mut fmt::Formatter<'_>) -> fmt::Result {
         write!(
@@ -438,7 +440,7 @@ where
             "RC5 - {}/{}/{}",
             core::any::type_name::<W>(),
             <R as Unsigned>::to_u8(),
-            <R as Unsigned>::to_u8(),
+            <B as Unsigned>::to_u8(),
         )
     }
 }
@@ -457,6 +459,8 @@ where
     R: Add<U1>,
     Sum<R, U1>: Mul<U2>,
     ExpandedKeyTableSize<R>: ArraySize,
+    // Key length
+    B: Unsigned,
 {
     fn fmt(&self, f: &mut fmt::Formatter<'_>) -> fmt::Result {
         write!(
@@ -464,7 +468,7 @@ where
             "RC5 - {}/{}/{} {{ ... }}",
             core::any::type_name::<W>(),
             <R as Unsigned>::to_u8(),
-            <R as Unsigned>::to_u8(),
+            <B as Unsigned>::to_u8(),
         )
     }
 }
